@@ -5,6 +5,23 @@ HOOK_COMMITS = ["80fcbe6"]
 TODO = "check not built yet in this round; design in DESIGN.md section 5 (to be claimed when the TLA+ module and harness exist)"
 
 CLAIMS = {
+    "C03": {
+        "text": "TLA+ model of one HTTP exchange (specs/ProxyMsg*.tla): the contract is one predicate per clause of the property (percent-decoding and Go's URL escaping "
+                "modelled on byte sequences); an implementation-shaped layer has one operator per stage mux -> RequestAdaptor -> prepareRequest/cloneHeader -> transport -> "
+                "compress -> FetchPayload -> ResponseAdaptor -> write-out, including retries. TLC checks that the (repaired) model refines the contract over the full toggle "
+                "product and that each defect left in violates it. TLC-enumerated scenarios (-dump) are run as real exchanges over loopback sockets (real mux.ServeHTTP and Pipeline, "
+                "raw TCP backends, hand-framed client) and TLC evaluates the contract on every recorded exchange.",
+        "note": "path 'unchanged' = equal after percent-decoding, raw query byte-equal; hop-by-hop removal judged by the client's values; gzip and sha256 computed in the harness; "
+                "HTTP/2, HTTP/3, mirror pool, memory cache, mTLS, 204/304 and non-gzip encodings outside the claim",
+        "technique": "TLA+ spec + TLC model checking; model-based test generation (TLC -dump) run over sockets on the real code; TLC trace evaluation of the recordings",
+    },
+    "C07": {
+        "text": "Limit selection and FetchPayload as a TLA+ step machine (specs/ProxyMsgLimit.tla) refine the body-limit contract (ProxyMsgDefs part 4) for both readings of the 4MB default; "
+                "all scenarios (2 directions x limit pairs x declared/chunked/close-delimited x sizes L-1, L, L+1, 4L, streams, lying lengths) run over sockets with real 4MB+-1 and 16MiB bodies "
+                "through the real mux and Proxy; TLC evaluates the contract on the recordings.",
+        "note": "'4MB' read as the interval [4,000,000, 4,194,304]; a request with a lying Content-Length is recorded but not judged (not in the property text); explicit limits are scaled",
+        "technique": "TLA+ spec + TLC model checking; model-based test generation (TLC -dump) run over sockets on the real code; TLC trace evaluation of the recordings",
+    },
     "C08": {
         "text": "TLA+ contract of the CLOSED/OPEN/HALF_OPEN automaton (specs/CircuitBreaker.tla) model-checked exhaustively at small bounds "
                 "with every clause of the property as invariant/action property; TLC-generated behaviours over a policy grid are replayed in lock-step "
